@@ -31,6 +31,7 @@ import (
 	"github.com/XiaoMi/Gaea/parser"
 	"github.com/XiaoMi/Gaea/parser/ast"
 	"github.com/XiaoMi/Gaea/proxy/plan"
+	"github.com/XiaoMi/Gaea/proxy/router"
 	"github.com/XiaoMi/Gaea/util"
 )
 
@@ -337,6 +338,12 @@ func (se *SessionExecutor) preBuildUnshardPlan(reqCtx *util.RequestContext, db s
 	}
 
 	// 2. check sql, if all tables in sql are unshard, return unshard plan
+	// The token checks below only look at the word next to the first FROM / INTO / SET of each clause.
+	// A statement that mentions the name of a table with a shard rule anywhere (second table of a join,
+	// sub query, upper case or quoted spelling, comment next to the name) is left to the full analysis.
+	if mentionsShardTable(rt, sql) {
+		return nil, false
+	}
 	ruleDB := db
 	isUnshardPlan := true
 	tokenId, ok := mysql.ParseTokenMap[strings.ToLower(tokens[0])]
@@ -365,6 +372,21 @@ func (se *SessionExecutor) preBuildUnshardPlan(reqCtx *util.RequestContext, db s
 	}
 
 	return nil, false
+}
+
+// mentionsShardTable reports whether the text contains the name of any table that has a shard rule
+// (rule table names are kept in lower case). It may say yes for a statement that only uses unsharded
+// tables, which then merely takes the slower path through the parser.
+func mentionsShardTable(rt *router.Router, sql string) bool {
+	lower := strings.ToLower(sql)
+	for _, tables := range rt.GetAllRules() {
+		for table := range tables {
+			if strings.Contains(lower, table) {
+				return true
+			}
+		}
+	}
+	return false
 }
 
 func (se *SessionExecutor) handleSet(reqCtx *util.RequestContext, sql string, stmt *ast.SetStmt) (*mysql.Result, error) {
